@@ -45,6 +45,9 @@ def check_query(q, pred, desc):
             if ap[path] != len(want):
                 return "%s on layout %s: %s = %r, reference %r" % (desc, name, path, ap[path], len(want))
         for lim in (1, 2):
+            if not set(ap["hits(limit=%d)" % lim]) <= set(want):
+                return "%s on layout %s: search(limit=%d) returns %r, not all among the matching documents %r" % (
+                    desc, name, lim, ap["hits(limit=%d)" % lim], want)
             if ap["scored_length(limit=%d)" % lim] != min(lim, len(want)):
                 return "%s on layout %s: scored_length(limit=%d) = %r" % (desc, name, lim, ap["scored_length(limit=%d)" % lim])
         if not ap["matcher ascending"]:
